@@ -294,3 +294,48 @@ contract(F, "TcpClientStack._serviceOneReceived", "C36", params=CSP,
              "implies(result, len(self.rxbs.content) == 0 or not complete(self.rxbs.content))",
          ],
          raises={"OSError": ["True"]}, returns=BOOL)
+
+
+# the statement ("reaches that peer byte-for-byte in queue order") is the composition of the stack-level contracts
+# above with the transport-level conservation contracts of C24: they are re-verified in every C36 run
+REG.also_verify["C36"] = [(FSRV, "Incomer.serviceTxes"), (FSRV, "Incomer.send"), (FSRV, "Incomer.tx"),
+                          (FSRV, "Incomer.serviceReceives"), (FSRV, "Incomer.receive"),
+                          ("ioflo/aio/tcp/clienting.py", "Client.send"), ("ioflo/aio/tcp/clienting.py", "Client.receive")]
+
+
+# ---------------------------------------------------------------- TcpServerStack.serviceConnects: a connected peer gets its remote
+# ("for a connected peer": the server stack learns its peers here; the call must not raise for any table content)
+REG.classes["TcpServerStack"].fields.update(haRemotes=Dict(HA, Ref("StackS")))
+for _m in ("closeConnection", "addRemote"):
+    REG.classes["TcpServerStack"].hooks[("getattr", _m)] = opaque_method("TcpServerStack." + _m)
+REG.classes["Server"].hooks[("getattr", "serviceConnects")] = opaque_method("Server.serviceConnects")
+classdecl("IpRemoteDevice", fields={})
+REG.classes["IpRemoteDevice"].hooks[("ctor", None)] = lambda E, cv, a, k: RefV(E.new_ref(), "StackS", nn=True)
+
+
+@external("dict.items")
+def _dict_items(E, args, kwargs):
+    dv = args[0]
+    n = E.fresh("nitems", z3.IntSort())
+    E.assume(n >= 0)
+    keys = E.fresh("itemkeys", z3.ArraySort(z3.IntSort(), E.ksort(dv.kt)))
+    dom, vals = E.ddom(dv), E.dvals(dv)
+
+    def at(E2, i):
+        kk = z3.Select(keys, i)
+        E2.assume(z3.Implies(z3.And(i >= 0, i < n), z3.Select(dom, kk)))
+        return (unpack(dv.kt, [kk], None), unpack(dv.vt, [z3.Select(a, kk) for a in vals], E2.assume))
+    return B.AbstractIter(n, at)
+
+
+IX_WF = ("forall(Opaque('ha'), lambda k: implies(k in self.handler.ixes, "
+         "self.handler.ixes[k].timer.store.stamp is not None and self.handler.ixes[k].timer.store.stamp >= 0 and "
+         "self.handler.ixes[k].timer.start >= 0 and self.handler.ixes[k].timer.duration >= 0 and "
+         "self.handler.ixes[k].timer.stop == self.handler.ixes[k].timer.start + self.handler.ixes[k].timer.duration))")
+contract(F, "TcpServerStack.serviceConnects", "C36", params=dict(self=Ref("TcpServerStack")),
+         requires=[IX_WF], modifies=[], frame=False,
+         loops={0: dict(inv=[IX_WF])},
+         ensures=["True"],
+         note="safety only: servicing the connection table raises nothing (every name it uses is bound, every call "
+              "matches its callee); closeConnection / addRemote / handler.serviceConnects are opaque traced calls "
+              "assumed not to touch the timer fields of the listed connections; dict.items() yields present keys")
